@@ -67,7 +67,13 @@ func rulePersistBeforeServe(c *Ctx) {
 						return false
 					}
 					a := callArgs(cl.Common())
-					return len(a) == 1 && sameVal(a[0], v)
+					if len(a) != 1 {
+						return false
+					}
+					if u, isLoad := v.(*ssa.UnOp); isLoad && u.Op == token.MUL && strip(a[0]) == u.X {
+						return true // handed over by address: the same local
+					}
+					return sameVal(a[0], v)
 				})
 				saved := newOkEv(fn, "ok(SaveReplicationStatus(dr))", func(cl *ssa.Call) bool {
 					if !save.Match(cl.Common()) {
